@@ -367,6 +367,12 @@ public:
     Index compute(SortRule selection = SortRule::LargestMagn, Index maxit = 1000,
                   RealScalar tol = 1e-10, SortRule sorting = SortRule::LargestAlge)
     {
+        // An unsupported sorting rule is rejected before the iteration changes anything,
+        // not only by the final sort
+        if ((sorting != SortRule::LargestAlge) && (sorting != SortRule::LargestMagn) &&
+            (sorting != SortRule::SmallestAlge) && (sorting != SortRule::SmallestMagn))
+            throw std::invalid_argument("unsupported sorting rule");
+
         // The m-step Lanczos factorization
         // After init() the factorization has one step; if compute() is called again
         // without init(), it already has m_ncv steps and the iteration simply continues
